@@ -76,6 +76,9 @@ def replay_case(am, uc, DM, h):
             model = encode_decode(DM, model, enc)
             uc.reset_units(**CFG[rs['cfg']])
             back = uc.value_unit(model['quantity'])
+            again = uc.value_unit(model['quantity'])            # the same model object read a second time
+            if np.shape(again) != np.shape(back) or not np.array_equal(np.asarray(again), np.asarray(back)):
+                return ('value[%s]: a second read of the same model object differs from the first' % enc, 'shape %s then %s' % (np.shape(back), np.shape(again)))
             shp = tuple(np.shape(back))
             if shp != tuple(ob['shape']):
                 return ('value[%s]: shape %s read back as %s' % (enc, tuple(ob['shape']), shp), 'unit=%s kind=%s' % (unit, ob['kind']))
@@ -134,6 +137,10 @@ def replay_case(am, uc, DM, h):
         V = np.array([[3.0, 0, 0], [0.5, 4.0, 0], [-0.25, 0.75, 5.0]])
         o = np.array([1.0, -2.0, 0.5])
         rel = np.array([[0.25 * i, 0.5, 0.125 * (i + 1)] for i in range(n)])
+        # atoms need not be inside the cell: one on the upper face, one outside below and one far above along periodic directions
+        for k_, r_ in enumerate(([1.0, 0.5, 0.25], [-0.75, 0.5, 1.5], [2.25, 0.25, -1.0])):
+            if k_ < n and n >= 2:
+                rel[n - 1 - k_] = r_
         posA = rel @ V + o
         props = {}
         punit = {'atype': None, 'pos': None if ob['posunit'] == 'None' else ob['posunit']}
@@ -180,6 +187,11 @@ def replay_case(am, uc, DM, h):
         uc.reset_units(**CFG[rs['cfg']])
         s2 = am.System(model=model)
         sub = 'system[%s]' % enc
+        # the SAME model object read a second time (reading does not consume it)
+        s3 = am.System(model=model)
+        if s3.natoms != s2.natoms or not np.array_equal(s3.atoms.pos, s2.atoms.pos) or sorted(s3.atoms.prop()) != sorted(s2.atoms.prop()) or \
+                any(np.shape(s3.atoms.view[k_]) != np.shape(s2.atoms.view[k_]) for k_ in s2.atoms.prop()):
+            return (sub + ': a second read of the same model object differs from the first', '')
         if s2.natoms != n:
             return (sub + ': natoms changed', '%d -> %d' % (n, s2.natoms))
         if not np.allclose(s2.box.vects / ufac(uc, 'angstrom'), V, rtol=1e-12, atol=1e-12) or not np.allclose(s2.box.origin / ufac(uc, 'angstrom'), o, rtol=1e-12, atol=1e-12):
